@@ -100,6 +100,22 @@ def r2(ctx):
         ok = ok and len(src) == 1 and '__GetEndpoint(%s)' % a.params[1] in U(src[0].value)
         fac = [e.node for e in ev if e.kind == 'stmt' and isinstance(e.node, ast.Assign) and U(e.node.targets[0]) == U(st[0].value)]
         ok = ok and len(fac) == 1 and 'CreateSink' in U(fac[0].value) and 'functools.partial' in U(fac[0].value)
+      # the properties bound into a member's channel factory are that member's own: a fresh copy made in this call, carrying its endpoint.
+      # Factories are called later (aperture: when an idle member becomes active; pools: lazily), a shared dict then names whoever joined last
+      own = False
+      if len(st) == 1:
+        fac_ = [e.node for e in ev if e.kind == 'stmt' and isinstance(e.node, ast.Assign) and U(e.node.targets[0]) == U(st[0].value)]
+        if len(fac_) == 1 and isinstance(fac_[0].value, ast.Call):
+          for arg in fac_[0].value.args[1:]:
+            d_ = [e.node.value for e in ev if e.kind == 'stmt' and isinstance(e.node, ast.Assign) and U(e.node.targets[0]) == U(arg)]
+            fresh = bool(d_) and ((isinstance(d_[-1], ast.Call) and (call_attr(d_[-1]) == 'copy' or U(d_[-1].func) == 'dict')) or isinstance(d_[-1], ast.Dict))
+            if isinstance(arg, ast.Call) and (call_attr(arg) == 'copy' or U(arg.func) == 'dict'):
+              fresh = True
+            carries = any('SinkProperties.Endpoint' in U(e.node) and U(arg) in U(e.node) for e in ev if e.kind in ('stmt', 'call')) or 'SinkProperties.Endpoint' in U(arg)
+            own = own or (fresh and carries)
+      ctx.ob('C05.R2', a, "a member's channel factory is bound to its own copy of the properties, carrying its endpoint", own,
+             'the properties object handed to the factory is not a fresh per-member copy: every factory shares one dict whose endpoint is the last joiner\'s, '
+             'so a sink built later (idle member becoming active) connects to the wrong, possibly departed, member', why)
       ctx.ob('C05.R2', a, 'new endpoint: factory stored under the endpoint and the subclass told (added=True)', ok, 'add path: stores %s, notifies %s' % ([U(s) for s in st], [U(c) for c in ch]), why)
   r = prog.func(B, 'LoadBalancerSink.__RemoveServer')
   for ev, ex in enum_paths(ctx, r):
